@@ -7,7 +7,7 @@
 // without ORDER BY count and sub-multiset membership.
 // W: CLI. Exhaustive product n in 0..12 and 1000 x 5 output modes x 6 placements (top level, FROM
 // subquery, WITH, under a join, top level over a retracting TRIGGER COUNTING group-by, nested over
-// it) x ORDER BY variants x 6 fixed row multisets with heavy duplication; thorough adds a third
+// it) x ORDER BY variants x 7 fixed row multisets with heavy duplication; thorough adds a third
 // ORDER BY variant and seeded random multisets.
 package c05
 
@@ -58,7 +58,8 @@ var twoInt = []sqlref.Column{{Name: "a", T: sqlref.TInt}, {Name: "b", T: sqlref.
 var twoNull = []sqlref.Column{{Name: "a", T: sqlref.TNull}, {Name: "b", T: sqlref.TNull}}
 
 // fixedMultisets: empty; one row; one row five times; two values with heavy duplication; NULLs
-// and duplicates; 14 rows with key ties whose other column differs and duplicates at every rank.
+// and duplicates; 14 rows with key ties whose other column differs and duplicates at every rank;
+// 10 rows whose Int sort keys lie more than 2^63 apart.
 func fixedMultisets() []*sqlref.Table {
 	return []*sqlref.Table{
 		sqlref.FixedTable("m0", "csv", twoNull, nil),
@@ -69,6 +70,12 @@ func fixedMultisets() []*sqlref.Table {
 		sqlref.FixedTable("m5", "csv", twoInt, []sqlref.Row{
 			row(iv(4), iv(4)), row(iv(1), iv(2)), row(iv(6), iv(7)), row(iv(2), iv(1)), row(iv(1), iv(1)), row(iv(2), iv(1)), row(iv(5), iv(0)),
 			row(iv(1), iv(2)), row(iv(3), iv(9)), row(iv(6), iv(6)), row(iv(2), iv(1)), row(iv(4), iv(4)), row(iv(5), iv(1)), row(iv(6), iv(6)),
+		}),
+		// sort keys whose differences do not fit in int64 (a comparator written as a subtraction
+		// wraps on them); every value is exactly representable as a float64 too
+		sqlref.FixedTable("m6", "csv", twoInt, []sqlref.Row{
+			row(iv(-5), iv(1)), row(iv(9000000000000000000), iv(2)), row(iv(3), iv(3)), row(iv(-9000000000000000000), iv(4)), row(iv(1<<62), iv(5)),
+			row(iv(-9000000000000000000), iv(4)), row(iv(0), iv(6)), row(iv(9000000000000000000), iv(7)), row(iv(-(1 << 62)), iv(8)), row(iv(3), iv(3)),
 		}),
 	}
 }
